@@ -219,6 +219,59 @@ func c07Run(c *Ctx) {
 		c.Sample(map[string]any{"group": "edit", "line": seeds[0][:40] + "\\" + seeds[0][41:120] + "…"})
 	}
 
+	// (vii) every string of length <= 4 (quick: <= 3, and length 4 over a reduced alphabet) over a content
+	// alphabet, as key and as value in every kind of value context: classifiers applied to string contents
+	// (e-mail shape, '$' prefix, date / oid / base64 wrappers, plan summary, namespaces) see every short
+	// combination of their trigger characters
+	calpha := []string{"a", "@", ".", "$", "\"", "\\", " ", "0", "-", ":", "Z", "/", "=", "é", "{", "\u0000"}
+	ctxs := []func(sv string) string{
+		func(sv string) string { return `{"c":"COMMAND","msg":"Slow query","attr":{"ns":"d.c","command":{"find":"c","filter":{"f":` + sv + `,"g":{"$in":[1,` + sv + `]}},"$db":"d"}}}` },
+		func(sv string) string { return `{"c":"COMMAND","msg":"Slow query","attr":{"ns":"d.c","command":{"aggregate":"c","pipeline":[{"$match":{"f":` + sv + `}},{"$addFields":{"g":{"$concat":[` + sv + `,"$f"]}}},{"$search":{"text":{"query":` + sv + `,"path":` + sv + `}}}],"$db":"d"}}}` },
+		func(sv string) string { return `{"c":"WRITE","msg":"Slow query","attr":{"ns":"d.c","command":{"q":{"_id":{"$oid":` + sv + `},"d":{"$date":` + sv + `}},"u":{"$set":{"b":{"$binary":{"base64":` + sv + `,"subType":` + sv + `}}}}}}}` },
+		func(sv string) string { return `{"c":"COMMAND","msg":"Slow query","attr":{"ns":` + sv + `,"remote":` + sv + `,"planSummary":` + sv + `,"command":{"find":` + sv + `,"filter":{` + sv + `:1},"sort":{` + sv + `:-1},"$db":` + sv + `}}}` },
+		func(sv string) string { return `{"c":"COMMAND","msg":"Slow query","attr":{"ns":"d.c","command":{"aggregate":"c","pipeline":[{"$lookup":{"from":` + sv + `,"localField":` + sv + `,"foreignField":` + sv + `,"as":` + sv + `}},{"$group":{"_id":` + sv + `}},{"$unwind":` + sv + `},{"$merge":` + sv + `}],"$db":"d"}}}` },
+	}
+	maxLen := 3
+	if c.Thorough() {
+		maxLen = 4
+	}
+	var gen func(prefix []int, n int)
+	gen = func(prefix []int, n int) {
+		if len(prefix) == n {
+			var sb strings.Builder
+			sb.WriteByte('"')
+			for _, i := range prefix {
+				sb.WriteString(calpha[i])
+			}
+			sb.WriteByte('"')
+			sv := sb.String()
+			c.Distinct("short:" + sv)
+			for _, mk := range ctxs {
+				line := mk(sv)
+				for _, fl := range c07FlagSets[1:4] {
+					fl.Apply()
+					eval("short-string", line, int64(len(sv)), fl)
+				}
+			}
+			return
+		}
+		for i := range calpha {
+			if len(prefix) == 0 {
+				caseNo++
+				if n > 1 && !c.Mine(caseNo) {
+					continue
+				}
+				if n == 1 && c.Shard != 0 {
+					continue
+				}
+			}
+			gen(append(prefix, i), n)
+		}
+	}
+	for n := 0; n <= maxLen; n++ {
+		gen(nil, n)
+	}
+
 	// (iv) nesting ladders, in-process for moderate depths
 	Flags{N: true}.Apply()
 	for _, depth := range []int{1, 2, 3, 10, 100, 1000, 3000} {
